@@ -64,6 +64,8 @@ type scenario struct {
 	FaultAt  []time.Duration
 	PeerMix  []int
 	Unsolicited int // peer primaries per phase
+	Validate    bool // session-id validation on
+	Foreign     int  // 1 in Foreign unsolicited primaries carries another session id (0 = none)
 	CloseEnd bool
 }
 
@@ -123,6 +125,8 @@ func genScenario(t *core.Tape, faulty bool) scenario {
 		sc.PeerMix = append(sc.PeerMix, t.Weighted("scn", 6, 2, 2, 2))
 	}
 	sc.Unsolicited = t.Choose("scn", 4)
+	sc.Validate = t.Choose("scn", 3) == 2
+	sc.Foreign = []int{0, 2, 3}[t.Choose("scn", 3)]
 	if faulty && sc.Active && t.Choose("scn", 3) == 0 {
 		sc.ColdStart = 1 + t.Choose("scn", 3)
 	}
@@ -139,7 +143,7 @@ func Build(config string) core.BuildFunc {
 		sc := h.sc
 		wto := 250 * time.Millisecond
 		h.r = rig.New(w, rig.Opts{Active: sc.Active, Equip: sc.Equip, T3: sc.T3, T5: 300 * time.Millisecond, T6: 300 * time.Millisecond, T7: 2 * time.Second, T8: time.Second,
-			BackoffInit: 30 * time.Millisecond, BackoffMult: 2, CloseTimeout: time.Second, WriteTimeout: &wto, AsyncErrHandler: true})
+			BackoffInit: 30 * time.Millisecond, BackoffMult: 2, CloseTimeout: time.Second, WriteTimeout: &wto, AsyncErrHandler: true, ValidateSession: sc.Validate})
 		r := h.r
 		r.N.KeepLog = true
 		r.P.AutoSelectRsp = 0
@@ -196,7 +200,7 @@ func (h *harness) describe() map[string]any {
 	}
 
 	return map[string]any{"active": sc.Active, "equip": sc.Equip, "coldStartRefusals": sc.ColdStart, "T3": sc.T3.String(), "phases": sc.Phases, "senders": sc.Senders, "sendsPerPhase": sc.PerPhase,
-		"faults": fs, "peerMix": sc.PeerMix, "unsolicitedPerPhase": sc.Unsolicited, "closeAtEnd": sc.CloseEnd}
+		"faults": fs, "peerMix": sc.PeerMix, "unsolicitedPerPhase": sc.Unsolicited, "validateSession": sc.Validate, "foreignSession1in": sc.Foreign, "closeAtEnd": sc.CloseEnd}
 }
 
 func (h *harness) peerDialLoop() {
@@ -398,7 +402,14 @@ func (h *harness) sender(si int) {
 		if si == 0 {
 			if pc := h.r.P.Last(); pc != nil && pc.Alive() && h.r.Selected() {
 				for k := 0; k < h.sc.Unsolicited; k++ {
-					pc.SendFrame(refhsms.DataHeader(0xFFFF, 6, 11, false, h.r.P.NextSys()), refhsms.ASCII("evt"))
+					sess := uint16(0xFFFF)
+					if h.sc.Foreign > 0 && w.T.Choose("peer", h.sc.Foreign) == 0 {
+						// a well-formed data frame of another session: received and counted whatever the
+						// validation setting does with it afterwards (S9F1 when validating)
+						sess = uint16(1 + w.T.Choose("peer", 0x7FFE))
+						w.Probe("foreign_session_data_frame")
+					}
+					pc.SendFrame(refhsms.DataHeader(sess, 6, 11, false, h.r.P.NextSys()), refhsms.ASCII("evt"))
 				}
 			}
 		}
